@@ -1003,6 +1003,11 @@ impl BuiltInFunction {
                     unreachable!()
                 };
 
+                // only the bytes below 128 are ASCII characters
+                if !byte.is_ascii() {
+                    bail!("`{byte}` is not an ASCII character")
+                }
+
                 Ok((
                     Some(Primitive::Str(
                         String::from_utf8_lossy(&[*byte]).into_owned(),
